@@ -98,6 +98,7 @@ pub struct Node { pub handle: NodeHandle }
 impl Clone for Node { #[verifier::external_body] fn clone(&self) -> (r: Node) ensures r == *self { unimplemented!() } }
 impl Node {
     #[verifier::external_body] pub fn as_good(id: NodeId, addr: SocketAddr) -> (r: Node) ensures r.handle.id == id, r.handle.addr == addr { unimplemented!() }
+    #[verifier::external_body] pub fn as_questionable(id: NodeId, addr: SocketAddr) -> (r: Node) ensures r.handle.id == id, r.handle.addr == addr { unimplemented!() }
     #[verifier::external_body] pub fn remote_request(&mut self, Tracked(tr): Tracked<&mut Trace>) ensures final(self).handle == old(self).handle, final(tr).ev == old(tr).ev.push(Ev::Mark(old(self).handle, false)) { unimplemented!() }
     #[verifier::external_body] pub fn local_request(&mut self, Tracked(tr): Tracked<&mut Trace>) ensures final(self).handle == old(self).handle, final(tr).ev == old(tr).ev.push(Ev::Mark(old(self).handle, true)) { unimplemented!() }
     #[verifier::external_body] pub fn addr(&self) -> (r: SocketAddr) ensures r == self.handle.addr { unimplemented!() }
@@ -127,6 +128,13 @@ impl RoutingTable {
     #[verifier::external_body]
     pub fn find_node_mut<'a>(&'a mut self, node: &'_ NodeHandle, Tracked(tr): Tracked<&mut Trace>) -> (r: Option<&'a mut Node>)
         ensures final(tr).ev == old(tr).ev.push(Ev::TableFind(*node, r is Some)), r is Some ==> r->0.handle == *node
+    { unimplemented!() }
+    /// RoutingTable::add_node(node): an offer of one node is a table admission event (not called by the pinned handler / search / refresh code;
+    /// the stand-in lets a change that calls it be judged)
+    //@ghost_default add_node 1 : Tracked(tr)
+    #[verifier::external_body]
+    pub fn add_node(&mut self, node: Node, Tracked(tr): Tracked<&mut Trace>)
+        ensures final(tr).ev == old(tr).ev.push(Ev::TableAdd(node.handle, Seq::empty()))
     { unimplemented!() }
     #[verifier::external_body]
     pub fn add_nodes(&mut self, node: Node, questionable_nodes: &[NodeHandle], Tracked(tr): Tracked<&mut Trace>)
